@@ -56,3 +56,7 @@ def shrink(line, fails):
 
 def classify(line, obs, why):
     return None
+
+
+def conclusive(line):
+    return line.startswith("(dstress")
